@@ -1,7 +1,7 @@
 ﻿from nsl import Visitor
 
 
-def ValidateSwizzleMask(mask):
+def ValidateSwizzleMask(mask, componentCount=4):
     from .. import Utility, Errors
 
     if any([m not in "xyzwrgba" for m in mask]):
@@ -16,6 +16,11 @@ def ValidateSwizzleMask(mask):
     ):
         Errors.ERROR_MIXED_SWIZZLE_MASK.Raise()
 
+    # Every selector must name a component the swizzled type has
+    componentIndex = {"x": 0, "y": 1, "z": 2, "w": 3, "r": 0, "g": 1, "b": 2, "a": 3}
+    if any([componentIndex[m] >= componentCount for m in mask]):
+        Errors.ERROR_SWIZZLE_COMPONENT_OUT_OF_RANGE.Raise(mask, componentCount)
+
 
 class ValidateSwizzleMaskVisitor(Visitor.DefaultVisitor):
     """Validate swizzle masks on vector types."""
@@ -28,9 +33,20 @@ class ValidateSwizzleMaskVisitor(Visitor.DefaultVisitor):
 
         t = expr.GetParent().GetType()
 
-        with nsl.Errors.CompileExceptionToErrorHandler(self.errorHandler):
+        def OnError():
+            self.valid = False
+
+        with nsl.Errors.CompileExceptionToErrorHandler(
+            self.errorHandler, OnError
+        ):
             if t.IsPrimitive() and (t.IsVector() or t.IsScalar()):
-                ValidateSwizzleMask(expr.GetMember())
+                componentCount = t.GetComponentCount() if t.IsVector() else 1
+                ValidateSwizzleMask(
+                    expr.GetMember().GetName(), componentCount
+                )
+
+        # The swizzled expression can contain further swizzles (a.zyx.x)
+        self.v_Visit(expr.GetParent(), ctx)
 
 
 def GetPass():
